@@ -16,7 +16,7 @@ def _install_classifier():
             bad = [i for (i, a, o) in res if not o]
             if bad:
                 sub = [cases[i] for i in bad]
-                r2, _ = orig(ctx, imports, "classify_case", sub, **kw)
+                r2, _ = orig(ctx, imports, "classify_case2", sub, **kw)
                 for (j, is_class, _o) in r2:
                     _SCRATCH_CLASS[sub[j]] = is_class
         return res, log
@@ -34,9 +34,9 @@ def classify(case_line):
     return None
 
 CFG = dict(
-    imports=["From Verif.Common Require Import Packet PolicyRef Ipt.", "From Verif.C08 Require Import Model Spec."],
-    checker="check_case",
-    n=dict(quick=480, thorough=6000),
+    imports=["From Verif.Common Require Import Packet PolicyRef Ipt.", "From Verif.C08 Require Import Model Spec Nft SpecNft."],
+    checker="check_case2",
+    n=dict(quick=400, thorough=6000),
     shard=60,
     deps=["Common"],
     rule="structured proto.Rules (protocol by name/number, 0-4 CIDRs per field with rare other-family and catch-all entries, "
